@@ -246,6 +246,56 @@ def cbDisplacement (K L sx q dE : ℝ) : ℝ :=
   (⌊dE / cbPerLap K L q⌋ : ℝ) * L +
     cbRemainder K L sx q (dE - (⌊dE / cbPerLap K L q⌋ : ℝ) * cbPerLap K L q)
 
+/-- C `non_negative` (repair `22b464f`): a rounding-negative argument of `sqrt` is replaced by zero -/
+def cbNonNeg (x : ℝ) : ℝ := if x < 0 then 0 else x
+
+/-- in the exact reading the clamp is invisible: `Real.sqrt` already is zero on negative numbers -/
+theorem sqrt_cbNonNeg (x : ℝ) : Real.sqrt (cbNonNeg x) = Real.sqrt x := by
+  unfold cbNonNeg
+  split
+  · rename_i h; rw [Real.sqrt_zero, Real.sqrt_eq_zero_of_nonpos h.le]
+  · rfl
+
+/-- the remainder stage as the code has it since the repair `22b464f` (`sqrt(non_negative(…))`) -/
+def cbRemainderCode (K L sx q dE : ℝ) : ℝ :=
+  let half := L / 2
+  let cur := cbPot K sx q
+  let pot0 := cbPot K 0 q
+  let potHalf := cbPot K half q
+  if K > 0 then
+    if sx ≤ 0 then
+      (half + sx) + (half - Real.sqrt (cbNonNeg ((K / (potHalf + dE)) * (K / (potHalf + dE)) - q)))
+    else if dE ≥ pot0 - cur then
+      (sx + half) + (half - Real.sqrt (cbNonNeg ((K / (potHalf + (dE - (pot0 - cur)))) * (K / (potHalf + (dE - (pot0 - cur)))) - q)))
+    else
+      sx - Real.sqrt (cbNonNeg ((K / (cur + dE)) * (K / (cur + dE)) - q))
+  else
+    if sx > 0 then
+      sx + (0 + Real.sqrt (cbNonNeg ((K / (pot0 + dE)) * (K / (pot0 + dE)) - q)))
+    else if dE ≥ potHalf - cur then
+      (sx + L) + (0 + Real.sqrt (cbNonNeg ((K / (pot0 + (dE - (potHalf - cur)))) * (K / (pot0 + (dE - (potHalf - cur)))) - q)))
+    else
+      sx + Real.sqrt (cbNonNeg ((K / (cur + dE)) * (K / (cur + dE)) - q))
+
+theorem cbRemainderCode_eq (K L sx q dE : ℝ) : cbRemainderCode K L sx q dE = cbRemainder K L sx q dE := by
+  simp only [cbRemainderCode, cbRemainder, sqrt_cbNonNeg]
+
+/-- C `displacement()` as it is since the repair `1b03a38`: the remainder budget `fmod(dE, perLap)` first, the number of
+complete trips as `round((dE - remainder) / perLap)` -/
+def cbDisplacementCode (K L sx q dE : ℝ) : ℝ :=
+  let c := cbPerLap K L q
+  let r := dE - (⌊dE / c⌋ : ℝ) * c          -- `fmod(dE, c)` for `dE ≥ 0`, `c > 0`
+  (round ((dE - r) / c) : ℝ) * L + cbRemainderCode K L sx q r
+
+/-- the repaired routine and the formulation `floor(dE / c) · L + remainder stage` agree in exact arithmetic (they differ only in
+binary64, where `floor(dE / c)` and `fmod(dE, c)` could disagree) -/
+theorem cbDisplacementCode_eq (K L sx q dE : ℝ) (hc : 0 < cbPerLap K L q) :
+    cbDisplacementCode K L sx q dE = cbDisplacement K L sx q dE := by
+  unfold cbDisplacementCode cbDisplacement
+  have : (dE - (dE - (⌊dE / cbPerLap K L q⌋ : ℝ) * cbPerLap K L q)) / cbPerLap K L q = (⌊dE / cbPerLap K L q⌋ : ℝ) := by
+    field_simp; ring
+  simp only [this, round_intCast, cbRemainderCode_eq]
+
 theorem cbPot_eq_pot (K sx q : ℝ) : cbPot K sx q = pot K 1 (sx * sx + q) := by
   unfold cbPot pot; rw [Real.sqrt_eq_rpow]
 
